@@ -8,6 +8,10 @@ CLAIMED = {
             "N<=2 rows, D=2..4 with <=2 bins per axis (quick); N<=3 (thorough); numpy.histogramdd is part of the numpy model (its documented contract)", "DESIGN.md 5/C02"),
     "C03": ("Bounded symbolic model checking of Histogram1D/HistogramND fill, fill_n and find_bin over every listed call structure of K values: final contents/errors/underflow/overflow/missed equal the reference sums AND the real batch construction; fill/find_bin return the reference index; find_bin changes nothing; keep_missed=False leaves everything untouched.",
             "K<=2 values, M<=2 bins, D=2 (quick); K<=3, M<=3, D<=3 (thorough)", "DESIGN.md 5/C03"),
+    "C09": ("Bounded symbolic model checking of HistogramND.projection (by index and by name, every order, chains), Histogram2D.T, accumulate and the refusals: marginal contents/errors2 equal the sums over the dropped axes for ALL symbolic contents, bins and names are those of the kept axes in original order, totals conserved, parent untouched; plus h(data).projection(k) == h1(data[:,k]) for rows inside the bins.",
+            "shapes up to 2x3x2 and 2x1x2x2, every non-empty proper axis subset; N<=2 rows for the data-driven part (quick); more shapes and all orders (thorough)", "DESIGN.md 5/C09"),
+    "C10": ("Bounded symbolic model checking of merge_bins (amount as a symbolic integer forked over its range, fractional amount, min_frequency as a symbolic threshold; 1D with/without a gap, 2D/3D per axis and all axes; inplace or not): new bins are unions of adjacent old bins with the stated edges, contents/errors2 are the run sums, totals/missed/other axes/the original are unchanged, gap-crossing and fractional amounts refused.",
+            "M<=4 bins 1D, shapes 2x3/3x2 (quick); M<=5, 2x4, 2x2x3 (thorough)", "DESIGN.md 5/C10"),
 }
 
 REASONS_NOT_YET = "check not built yet (work in progress; see DESIGN.md section 8 build order)"
